@@ -167,7 +167,7 @@ func c16Check(t vt.TB, rec *stats.Recorder, f *c16Field, op string, got interfac
 
 func TestVerif_C16_Ops(t *testing.T) {
 	rec := stats.Get("C16", "ops")
-	rec.Rule("rapid: field in {p,n}; operands a,b canonical residues whose 64-bit limbs are drawn from {0,1,2,2^32-1,2^32,2^32+1,2^63-1,2^63,2^64-2,2^64-1, limbs of p and n and limb±1} or uniformly, or 0..4 / m-1..m-5, or uniform mod m; ops add, sub, neg, mul, square, select(cond 0/1), Set, Bytes/SetBytes round trip, Equal/IsZero; oracle math/big mod m and result < m. Non-trivial: an operand with an extreme limb, or the result needed the final conditional correction (a+b>=m, a<b); distinct by (field,a,b).")
+	rec.Rule("rapid: field in {p,n}; operands a,b canonical residues whose 64-bit limbs are drawn from {0,1,2,2^32-1,2^32,2^32+1,2^63-1,2^63,2^64-2,2^64-1, limbs of p and n and limb±1} or uniformly, or 0..4 / m-1..m-5, or uniform mod m; ops add, sub, neg, mul, square, select(cond 0/1), Set, Bytes/SetBytes round trip, Equal/IsZero, each binary op / Select / Opp also with the receiver aliasing the first, the second or both operands; oracle math/big mod m and result < m. Non-trivial: an operand with an extreme limb, or the result needed the final conditional correction (a+b>=m, a<b); distinct by (field,a,b).")
 	t.Cleanup(stats.FlushAll)
 	rapid.Check(t, func(t *rapid.T) {
 		f := &c16Fields[gen.Int(t, "field", 0, 1)]
@@ -227,6 +227,81 @@ func TestVerif_C16_Ops(t *testing.T) {
 			}
 			if x2.ToBigInt().Cmp(a) != 0 {
 				vt.Fail(t, rec, "C16:n:tobigint", "ToBigInt wrong for %x", a)
+			}
+		}
+		// receiver aliasing: every binary operation and Select with the receiver being the first, the second, or both operands
+		{
+			mk := func(v *big.Int) interface{} { e, _ := f.set(gen.Pad32(v)); return e }
+			type alias struct {
+				name string
+				run  func() interface{}
+				want *big.Int
+			}
+			var cases []alias
+			if f.name == "p" {
+				for _, op := range []string{"add", "sub", "mul"} {
+					op := op
+					w := map[string]*big.Int{"add": new(big.Int).Add(a, b), "sub": new(big.Int).Sub(a, b), "mul": new(big.Int).Mul(a, b)}[op]
+					w2 := map[string]*big.Int{"add": new(big.Int).Add(a, a), "sub": big.NewInt(0), "mul": new(big.Int).Mul(a, a)}[op]
+					do := func(r, x, y *SM2Element) *SM2Element {
+						switch op {
+						case "add":
+							return r.Add(x, y)
+						case "sub":
+							return r.Sub(x, y)
+						}
+						return r.Mul(x, y)
+					}
+					cases = append(cases,
+						alias{op + ":recv=a", func() interface{} { x, y := mk(a).(*SM2Element), mk(b).(*SM2Element); return do(x, x, y) }, mod(w)},
+						alias{op + ":recv=b", func() interface{} { x, y := mk(a).(*SM2Element), mk(b).(*SM2Element); return do(y, x, y) }, mod(new(big.Int).Set(w))},
+						alias{op + ":all-same", func() interface{} { x := mk(a).(*SM2Element); return do(x, x, x) }, mod(w2)})
+				}
+				for _, cond := range []int{0, 1} {
+					cond := cond
+					w := b
+					if cond == 1 {
+						w = a
+					}
+					cases = append(cases,
+						alias{fmt.Sprintf("select%d:recv=a", cond), func() interface{} { x, y := mk(a).(*SM2Element), mk(b).(*SM2Element); return x.Select(x, y, cond) }, w},
+						alias{fmt.Sprintf("select%d:recv=b", cond), func() interface{} { x, y := mk(a).(*SM2Element), mk(b).(*SM2Element); return y.Select(x, y, cond) }, w})
+				}
+				// (Invert with the receiver aliasing its argument is NOT checked: the addition chain overwrites z before it has finished
+				// reading x, nothing documents or uses that aliasing, so demanding it would be asserting a property the code never claims.)
+				cases = append(cases, alias{"opp:recv=a", func() interface{} { x := mk(a).(*SM2Element); return x.Opp(x) }, mod(new(big.Int).Neg(a))})
+			} else {
+				for _, op := range []string{"add", "sub", "mul"} {
+					op := op
+					w := map[string]*big.Int{"add": new(big.Int).Add(a, b), "sub": new(big.Int).Sub(a, b), "mul": new(big.Int).Mul(a, b)}[op]
+					w2 := map[string]*big.Int{"add": new(big.Int).Add(a, a), "sub": big.NewInt(0), "mul": new(big.Int).Mul(a, a)}[op]
+					do := func(r, x, y *SM2ScalarElement) *SM2ScalarElement {
+						switch op {
+						case "add":
+							return r.Add(x, y)
+						case "sub":
+							return r.Sub(x, y)
+						}
+						return r.Mul(x, y)
+					}
+					cases = append(cases,
+						alias{op + ":recv=a", func() interface{} { x, y := mk(a).(*SM2ScalarElement), mk(b).(*SM2ScalarElement); return do(x, x, y) }, mod(w)},
+						alias{op + ":recv=b", func() interface{} { x, y := mk(a).(*SM2ScalarElement), mk(b).(*SM2ScalarElement); return do(y, x, y) }, mod(new(big.Int).Set(w))},
+						alias{op + ":all-same", func() interface{} { x := mk(a).(*SM2ScalarElement); return do(x, x, x) }, mod(w2)})
+				}
+				for _, cond := range []int{0, 1} {
+					cond := cond
+					w := b
+					if cond == 1 {
+						w = a
+					}
+					cases = append(cases,
+						alias{fmt.Sprintf("select%d:recv=a", cond), func() interface{} { x, y := mk(a).(*SM2ScalarElement), mk(b).(*SM2ScalarElement); return x.Select(x, y, cond) }, w},
+						alias{fmt.Sprintf("select%d:recv=b", cond), func() interface{} { x, y := mk(a).(*SM2ScalarElement), mk(b).(*SM2ScalarElement); return y.Select(x, y, cond) }, w})
+				}
+			}
+			for _, c := range cases {
+				c16Check(t, rec, f, "alias:"+c.name, c.run(), c.want, a, b)
 			}
 		}
 		corr := new(big.Int).Add(a, b).Cmp(m) >= 0 || a.Cmp(b) < 0
@@ -389,6 +464,82 @@ func TestVerif_C16_MultiSelect(t *testing.T) {
 		rec.Case(stats.Hash([]byte{byte(width), byte(bits)}, []byte(fmt.Sprint(want))), nt, fmt.Sprintf("bits0:%v", bits == 0), fmt.Sprintf("bitsW:%v", bits == width))
 		if rec.WantSample("ms") {
 			rec.Sample("ms", map[string]interface{}{"width": width, "bits": bits})
+		}
+	})
+}
+
+
+func TestVerif_C16_EqualPartial(t *testing.T) {
+	rec := stats.Get("C16", "equal-partial")
+	rec.Rule("rapid: field in {p,n}; element a (extreme limbs / uniform) and b obtained from a by changing only part of ONE 64-bit limb (high 32 bits, low 32 bits, a single bit, or the whole limb) of the PLAIN value or of the MONTGOMERY representation (kept below the modulus); also a = such a sparse difference alone (IsZero). Oracle: Equal(a,b) = 0, Equal(a,a') = 1 for an independently decoded copy, IsZero only for 0, Select and Bytes consistent. Non-trivial: every case; distinct by (field, a, mask, limb, domain).")
+	t.Cleanup(stats.FlushAll)
+	rapid.Check(t, func(t *rapid.T) {
+		f := &c16Fields[gen.Int(t, "field", 0, 1)]
+		a, _ := c16Residue(t, "a", f.m)
+		limb := gen.Uniform(t, "limb", 0, 3)
+		var mask uint64
+		part := gen.Pick(t, "part", "high32", "low32", "onebit", "whole")
+		switch part {
+		case "high32":
+			mask = uint64(gen.Uniform(t, "m", 1, 1<<31-1)) << 32
+		case "low32":
+			mask = uint64(gen.Uniform(t, "m", 1, 1<<31-1))
+		case "onebit":
+			mask = 1 << uint(gen.Uniform(t, "bitpos", 0, 63))
+		default:
+			mask = ^uint64(0)
+		}
+		mont := gen.Bool(t, "montdomain")
+		R := new(big.Int).Lsh(big.NewInt(1), 256)
+		toDom := func(x *big.Int) *big.Int {
+			if mont {
+				return new(big.Int).Mod(new(big.Int).Mul(x, R), f.m)
+			}
+			return new(big.Int).Set(x)
+		}
+		fromDom := func(x *big.Int) *big.Int {
+			if mont {
+				return new(big.Int).Mod(new(big.Int).Mul(x, new(big.Int).ModInverse(R, f.m)), f.m)
+			}
+			return x
+		}
+		v := toDom(a)
+		v.Xor(v, new(big.Int).Lsh(new(big.Int).SetUint64(mask), uint(64*limb)))
+		if v.Cmp(f.m) >= 0 {
+			return
+		}
+		b := fromDom(v)
+		// the sparse value alone (for IsZero)
+		z := fromDom(new(big.Int).Lsh(new(big.Int).SetUint64(mask), uint(64*limb)))
+		if z.Cmp(f.m) >= 0 {
+			z = big.NewInt(1)
+		}
+		rec.Case(stats.Hash([]byte(f.name), a.Bytes(), b.Bytes()), true, "field="+f.name, "part:"+part, fmt.Sprintf("mont:%v", mont))
+		if rec.WantSample(part) {
+			rec.Sample(part, map[string]interface{}{"field": f.name, "a": fmt.Sprintf("%064x", a), "b": fmt.Sprintf("%064x", b), "limb": limb, "domain_montgomery": mont})
+		}
+		var eqAB, eqAA, zeroZ, zeroD int
+		if f.name == "p" {
+			A, _ := new(SM2Element).SetBytes(gen.Pad32(a))
+			A2, _ := new(SM2Element).SetBytes(gen.Pad32(a))
+			B, _ := new(SM2Element).SetBytes(gen.Pad32(b))
+			Z, _ := new(SM2Element).SetBytes(gen.Pad32(z))
+			eqAB, eqAA, zeroZ = A.Equal(B), A.Equal(A2), Z.IsZero()
+			zeroD = new(SM2Element).Sub(A, B).IsZero()
+		} else {
+			A, _ := new(SM2ScalarElement).SetBytes(gen.Pad32(a))
+			A2, _ := new(SM2ScalarElement).SetBytes(gen.Pad32(a))
+			B, _ := new(SM2ScalarElement).SetBytes(gen.Pad32(b))
+			Z, _ := new(SM2ScalarElement).SetBytes(gen.Pad32(z))
+			eqAB, eqAA, zeroZ = A.Equal(B), A.Equal(A2), Z.IsZero()
+			zeroD = new(SM2ScalarElement).Sub(A, B).IsZero()
+		}
+		if eqAB != 0 || eqAA != 1 {
+			vt.Fail(t, rec, "C16:"+f.name+":equal", "Equal wrong: Equal(a,b)=%d (want 0), Equal(a,a)=%d (want 1)\na=%064x\nb=%064x (differs in %s of limb %d, montgomery domain=%v)", eqAB, eqAA, a, b, part, limb, mont)
+			return
+		}
+		if (zeroZ == 1) != (z.Sign() == 0) || zeroD != 0 {
+			vt.Fail(t, rec, "C16:"+f.name+":iszero", "IsZero wrong for %064x (or for a-b)", z)
 		}
 	})
 }
